@@ -112,7 +112,7 @@ PROPS = {
         "level": "model_checking", "bounds": BOUNDS_E1, "outside": "change_identity to another member's address (identity changes keep the address: the renew contract); " + OUT_E1, "assumptions": [STUBS],
         "harnesses": [
             H("a_apply1_k1", cost=120), H("d_ping", cost=80), H("t_remove", cost=70), H("c01_monotone", cost=15), H("c01_frame", cost=100), H("d_broadcast_custom", cost=65), H("d_gossip_upd_never", cost=90),
-            H("a_apply1_k2", tier=T, cost=220), H("c06_fuzz_gossip_7", tier=T, cost=120), H("a_change_identity", tier=T),
+            H("a_apply1_k2", tier=T, cost=220), H("a_change_identity", tier=T),
         ],
     },
     "C10": {
@@ -211,7 +211,7 @@ PROPS = {
             H("d_turn_undead_never", cost=200, timeout_q=900), H("d_turn_undead_losing", cost=200, timeout_q=900), H("d_feed_upd_tight", cost=150, timeout_q=900), H("d_ping", cost=80), H("d_ack", cost=70), H("d_gossip", cost=75), H("d_pingreq", cost=80),
             H("d_turn_undead_next", tier=T, cost=600, timeout_t=1800), H("d_turn_undead", tier=T, cost=900, timeout_t=1800, mem_gb=40), H("d_announce", tier=T, cost=500, timeout_t=1800), 
             H("d_indirect_ping", tier=T), H("d_indirect_ack", tier=T), H("d_fwd_ack", tier=T, cost=105), H("d_feed", tier=T), H("d_broadcast", tier=T), 
-            H("c06_fuzz_gossip_7", tier=T, cost=120), 
+            
         ],
     },
     "C19": {
